@@ -1,11 +1,17 @@
 (* C23 model runner.
-   in : the `before` field of the harness:  decl|decl|...   decl = O | I<0/1>:spec;spec;...
-        spec = id,name,path,hascomment,commenttext,pos,end,line,endline  (strings hex, "-" = empty)
-   out: after TAB groups TAB mixed
-        after  = same format without line/endline (model of d.Specs after ast.SortImports) | PANIC
-        groups = decl|decl, decl = O | I<0/1>:group/group, group = name,path;name,path
-                 (the sorted, deduplicated runs of each block, empty runs omitted)
-        mixed  = 1 when some run has key-equal specs that differ in "has a comment" *)
+   in : lines0 TAB before       (fields of the harness)
+        lines0 = the token.File line table after parsing: comma-separated offsets
+        before = decl|decl|...   decl = O | I<0/1>,<rparen offset>:spec;spec;...
+        spec   = id,name,path,hascomment,commenttext,pos,end,line,endline  (strings hex, "-" = empty)
+   out: after TAB lines1 TAB groups TAB mixed TAB flags
+        after  = same format without line/endline: the model of d.Specs after ast.SortImports | PANIC
+        lines1 = the line table after SortImports
+        groups = decl|decl, decl = O | I<0/1>:group/group, group = name,path;name,path : the groups of each
+                 processed block in the final line table (what the printer sees); "?" after the first O
+        mixed  = 1 when some run (by the original lines) has key-equal specs that differ in "has a comment"
+        flags  = L when line/endline of every record equal line_at(lines0, pos/end) (the harness and the
+                 model agree on lineAt), l otherwise; S when the layout-free model (static runs) gives the
+                 same specs, s otherwise *)
 open C23model
 let rec pos_of_int n = if n = 1 then XH else if n land 1 = 0 then XO (pos_of_int (n lsr 1)) else XI (pos_of_int (n lsr 1))
 let n_of_int n = if n = 0 then N0 else Npos (pos_of_int n)
@@ -18,7 +24,7 @@ let rec int_of_nat = function O -> 0 | S n -> 1 + int_of_nat n
 let unhex s = if s = "-" || s = "" then [] else
   List.init (String.length s / 2) (fun i -> n_of_int (int_of_string ("0x" ^ String.sub s (2*i) 2)))
 let hex l = if l = [] then "-" else String.concat "" (List.map (fun z -> Printf.sprintf "%02x" (int_of_n z)) l)
-let split c s = if s = "" then [] else String.split_on_char c s
+let split c s = if s = "" || s = "-" then [] else String.split_on_char c s
 let parse_spec s =
   match String.split_on_char ',' s with
   | [id; nm; pa; hc; ct; p; e; l; el] ->
@@ -27,42 +33,59 @@ let parse_spec s =
       sline = z_of_int (int_of_string l); sendline = z_of_int (int_of_string el) }
   | _ -> failwith ("bad spec " ^ s)
 let parse_decl d =
-  if d = "O" then OtherDecl
+  if d = "O" then LOther
   else begin
+    let i = String.index d ':' in
     let lp = d.[1] = '1' in
-    let body = String.sub d 3 (String.length d - 3) in
-    ImportDecl (lp, List.map parse_spec (split ';' body))
+    let rp = int_of_string (String.sub d 3 (i - 3)) in
+    let body = String.sub d (i + 1) (String.length d - i - 1) in
+    LImport (lp, z_of_int rp, List.map parse_spec (split ';' body))
   end
 let show_spec s =
   Printf.sprintf "%d,%s,%s,%d,%s,%d,%d" (int_of_nat s.sid) (hex s.sname) (hex s.spath) (if s.shasc then 1 else 0)
     (hex s.sctext) (int_of_z s.spos) (int_of_z s.send)
 let show_decl = function
-  | OtherDecl -> "O"
-  | ImportDecl (lp, sp) -> Printf.sprintf "I%d:%s" (if lp then 1 else 0) (String.concat ";" (List.map show_spec sp))
+  | LOther -> "O"
+  | LImport (lp, rp, sp) -> Printf.sprintf "I%d,%d:%s" (if lp then 1 else 0) (int_of_z rp) (String.concat ";" (List.map show_spec sp))
 let show_np s = hex s.sname ^ "," ^ hex s.spath
-exception ModelPanic
-let groups_of = function
-  | OtherDecl -> "O"
-  | ImportDecl (false, sp) -> "I0:" ^ String.concat "/" (List.map show_np sp)
-  | ImportDecl (true, sp) ->
-    (match block_runs_exec sp with
-     | Ok rs -> "I1:" ^ String.concat "/" (List.filter_map (fun r -> if r = [] then None else Some (String.concat ";" (List.map show_np r))) rs)
-     | _ -> raise ModelPanic)
-(* SortImports stops at the first non-import declaration: later blocks stay as they are *)
-let rec groups_file = function
+let show_groups gs = String.concat "/" (List.filter_map (fun r -> if r = [] then None else Some (String.concat ";" (List.map show_np r))) gs)
+let rec groups_file lines = function
   | [] -> []
-  | OtherDecl :: r -> "O" :: List.map (fun _ -> "?") r
-  | d :: r -> groups_of d :: groups_file r
-let mixed ds = List.exists (function ImportDecl (true, sp) -> List.exists mixed_ties (runs sp) | _ -> false) ds
+  | LOther :: r -> "O" :: List.map (fun _ -> "?") r
+  | LImport (false, _, sp) :: r -> ("I0:" ^ String.concat "/" (List.map show_np sp)) :: groups_file lines r
+  | LImport (true, _, sp) :: r -> ("I1:" ^ show_groups (groups_in lines sp)) :: groups_file lines r
+let simple = function LOther -> OtherDecl | LImport (lp, _, sp) -> ImportDecl (lp, sp)
+let idents = function
+  | OtherDecl -> [] | ImportDecl (_, sp) -> List.map (fun s -> (s.sid, s.spos, s.send)) sp
+let lidents = function
+  | LOther -> [] | LImport (_, _, sp) -> List.map (fun s -> (s.sid, s.spos, s.send)) sp
 let () =
   try while true do
     let line = input_line stdin in
-    (if line = "-" || line = "" then print_string "-\t-\t0" else
-     let ds = List.map parse_decl (split '|' line) in
-     let after = match sort_imports_exec ds with
-       | Ok r -> String.concat "|" (List.map show_decl r)
-       | Panic -> "PANIC" | OutOfFuel -> "OOF" in
-     let gr = try String.concat "|" (groups_file ds) with ModelPanic -> "PANIC" in
-     print_string (after ^ "\t" ^ gr ^ "\t" ^ (if mixed ds then "1" else "0")));
+    (match String.split_on_char '\t' line with
+     | [l0; before] ->
+       let lines = List.map (fun x -> z_of_int (int_of_string x)) (split ',' l0) in
+       let ds = List.map parse_decl (split '|' before) in
+       let consistent = List.for_all (function
+           | LOther -> true
+           | LImport (_, _, sp) -> List.for_all (fun s -> line_at lines s.spos = s.sline && line_at lines s.send = s.sendline) sp) ds in
+       let mixed = List.exists (function LImport (true, _, sp) -> List.exists mixed_ties (runs sp) | _ -> false) ds in
+       (* two specs of a run with the same sort key: an unstable sort may drop either one, i.e. merge a different line *)
+       let rec has_tie = function [] -> false | a :: r -> List.exists (key_eqb a) r || has_tie r in
+       let ties = List.exists (function LImport (true, _, sp) -> List.exists has_tie (runs sp) | _ -> false) ds in
+       let after, l1, gr, same =
+         match sort_imports_lines_exec lines ds with
+         | Ok (r, lines') ->
+           let same = (match sort_imports_exec (List.map simple ds) with
+               | Ok r2 -> List.map idents r2 = List.map lidents r
+               | _ -> false) in
+           (if r = [] then "-" else String.concat "|" (List.map show_decl r)),
+           String.concat "," (List.map (fun z -> string_of_int (int_of_z z)) lines'),
+           (if r = [] then "-" else String.concat "|" (groups_file lines' r)), same
+         | Panic -> "PANIC", "-", "PANIC", false
+         | OutOfFuel -> "OOF", "-", "OOF", false in
+       print_string (String.concat "\t" [after; l1; gr; (if mixed then "1" else "0");
+                                         (if consistent then "L" else "l") ^ (if same then "S" else "s") ^ (if ties then "T" else "t")])
+     | _ -> print_string "BADLINE");
     print_newline ()
   done with End_of_file -> ()
